@@ -78,7 +78,45 @@ func findReload(c *Ctx, rule string) *reloadAnchors {
 		c.Undecided(rule, "anchor:reload-function", "-", "no caller of "+short(a.runCfg))
 		return nil
 	}
+	// reload roots: climb to the function whose helper region contains the whole read/parse/validate/start/stop sequence
+	hasValidate := func(f *ssa.Function) bool {
+		reg := c.NewRegion(f, 3, func(h *ssa.Function) bool { return eng.PkgPathOf(h) != eng.Mod+"/"+mainPkg || h == a.runCfg })
+		return len(reg.FindCalls(func(n string, _ *ssa.Call) bool { return n == "(*"+mainPkg+".Config).Validate" })) > 0
+	}
+	var roots []*ssa.Function
+	for _, f := range a.callers {
+		cur := f
+		for i := 0; i < 3 && !hasValidate(cur); i++ {
+			sites := c.P.CallSitesOf(cur)
+			var ups []*ssa.Function
+			seen := map[*ssa.Function]bool{}
+			for _, s := range sites {
+				if eng.PkgPathOf(s.Fn) == eng.Mod+"/"+mainPkg && !seen[s.Fn] {
+					seen[s.Fn] = true
+					ups = append(ups, s.Fn)
+				}
+			}
+			if len(ups) != 1 {
+				break
+			}
+			cur = ups[0]
+		}
+		dup := false
+		for _, r := range roots {
+			if r == cur {
+				dup = true
+			}
+		}
+		if !dup {
+			roots = append(roots, cur)
+		}
+	}
+	a.callers = roots
 	return a
+}
+
+func (a *reloadAnchors) region(c *Ctx, root *ssa.Function) *Region {
+	return c.NewRegion(root, 3, func(h *ssa.Function) bool { return eng.PkgPathOf(h) != eng.Mod+"/"+mainPkg || h == a.runCfg })
 }
 
 // stopSites: calls in fn that stop the running configuration: (*OutlineServer).Stop, or a dynamic call whose
@@ -130,52 +168,71 @@ func runC10(c *Ctx) {
 
 // C10.VALIDATE
 func ruleValidate(c *Ctx, a *reloadAnchors) {
+	p := c.P
 	n := 0
 	for _, lc := range a.callers {
-		runCalls := onlyCalls(callsNamed(lc, short(a.runCfg)))
+		reg := a.region(c, lc)
+		runCalls := reg.FindCalls(func(_ string, call *ssa.Call) bool { return callTo(c, call, a.runCfg) })
 		type guard struct {
 			name   string
 			errIdx int
 		}
 		guards := []guard{{"os.ReadFile", 1}, {mainPkg + ".readConfig", 1}, {"(*" + mainPkg + ".Config).Validate", 0}}
+		deepIdx := eng.OriginOpts{ThroughConvert: true, ThroughIndex: true, Interproc: true}
+		isParsed := func(v ssa.Value) bool {
+			call, idx, ok := eng.AsResult(v)
+			return ok && idx == 0 && eng.CalleeName(&call.Call) == mainPkg+".readConfig"
+		}
 		for _, rc := range runCalls {
 			for _, g := range guards {
-				gc := callsNamed(lc, g.name)
-				if len(gc) == 0 {
-					c.CheckAt("VALIDATE", short(lc)+":"+g.name, rc, false, "the reload function starts a configuration without calling "+g.name)
+				g := g
+				found := len(reg.FindCalls(func(nm string, _ *ssa.Call) bool { return nm == g.name })) > 0
+				if !found {
+					c.CheckAt("VALIDATE", short(lc)+":"+g.name, rc, false, "the reload path starts a configuration without calling "+g.name)
 					continue
 				}
-				succ, _ := c.P.SuccessEdges(lc, gc, g.errIdx)
-				ok := len(succ) > 0 && eng.Cut(lc, rc.Block(), succ)
-				c.CheckAt("VALIDATE", short(lc)+":"+g.name, rc, ok, fmt.Sprintf("start of the new configuration is reachable without the success edge of %s (success edges found: %d)", g.name, len(succ)))
+				gd := c.CallGuard(func(call *ssa.Call) (int, bool) { return g.errIdx, eng.CalleeName(&call.Call) == g.name })
+				c.CheckAt("VALIDATE", short(lc)+":"+g.name, rc, reg.CutDeep(rc, gd), "start of the new configuration is reachable without the success edge of "+g.name)
 				n++
 			}
 			// the configuration started is the one parsed and validated
-			cfgArg := eng.Arg(&rc.Call, 0)
-			opts := eng.OriginOpts{ThroughConvert: true, ThroughIndex: true}
-			isParsed := func(v ssa.Value) bool {
-				call, idx, ok := eng.AsResult(v)
-				return ok && idx == 0 && eng.CalleeName(&call.Call) == mainPkg+".readConfig"
+			var cfgArg ssa.Value
+			for _, ar := range rc.Call.Args {
+				if strings.HasSuffix(eng.TypeName(ar.Type()), ".Config") {
+					cfgArg = ar
+				}
 			}
-			// runConfig takes Config by value: the argument is a load *t12 of the pointer returned by readConfig
 			okSame := false
-			if u, ok := cfgArg.(*ssa.UnOp); ok && u.Op == token.MUL {
-				okSame, _ = c.P.AllFrom(u.X, opts, isParsed)
-			} else {
-				okSame, _ = c.P.AllFrom(cfgArg, opts, isParsed)
+			if cfgArg != nil {
+				if u, ok := cfgArg.(*ssa.UnOp); ok && u.Op == token.MUL {
+					okSame, _ = p.AllFrom(u.X, deepIdx, isParsed)
+				} else {
+					okSame, _ = p.AllFrom(cfgArg, eng.OriginOpts{ThroughConvert: true, ThroughIndex: true, Interproc: true, ThroughFieldLoad: false}, func(v ssa.Value) bool {
+						if isParsed(v) {
+							return true
+						}
+						if u, ok := v.(*ssa.UnOp); ok && u.Op == token.MUL {
+							g, _ := p.AllFrom(u.X, deepIdx, isParsed)
+							return g
+						}
+						return false
+					})
+				}
 			}
 			c.CheckAt("VALIDATE", short(lc)+":started-config-is-parsed-config", rc, okSame, "the configuration passed to start does not derive (only) from the parse result")
-			for _, vc := range onlyCalls(callsNamed(lc, "(*"+mainPkg+".Config).Validate")) {
-				okV, _ := c.P.AllFrom(vc.Call.Args[0], opts, isParsed)
+			for _, vc := range reg.FindCalls(func(nm string, _ *ssa.Call) bool { return nm == "(*"+mainPkg+".Config).Validate" }) {
+				okV, _ := p.AllFrom(vc.Call.Args[0], deepIdx, isParsed)
 				c.CheckAt("VALIDATE", short(lc)+":validated-config-is-parsed-config", vc, okV, "Validate is called on something other than the parse result")
 			}
 		}
+		c.Floor("VALIDATE", "start calls in the reload path of "+short(lc), len(runCalls), 1)
 	}
 	c.Floor("VALIDATE", "guard obligations", n, 3)
 }
 
 // C10.KEEPOLD (shared with C11.ORDER)
 func ruleKeepOld(c *Ctx, a *reloadAnchors, rule string) {
+	p := c.P
 	field := stopFuncField(c)
 	if field == "" {
 		c.Undecided(rule, "anchor:stop-function-field", "-", "OutlineServer has no func() error field")
@@ -183,57 +240,53 @@ func ruleKeepOld(c *Ctx, a *reloadAnchors, rule string) {
 	}
 	n := 0
 	for _, lc := range a.callers {
-		runCalls := callsNamed(lc, short(a.runCfg))
-		succ, _ := c.P.SuccessEdges(lc, runCalls, 1)
-		if len(succ) == 0 {
-			c.Check(rule, short(lc)+":start-error-tested", c.P.Pos(lc.Pos()), false, "the error result of starting the new configuration is never tested")
+		reg := a.region(c, lc)
+		runCalls := reg.FindCalls(func(_ string, call *ssa.Call) bool { return callTo(c, call, a.runCfg) })
+		gRun := c.CallGuard(func(call *ssa.Call) (int, bool) { return 1, callTo(c, call, a.runCfg) })
+		tested := false
+		for _, f := range reg.Fns {
+			if len(gRun.Edges(f)) > 0 {
+				tested = true
+			}
+		}
+		if !tested {
+			c.Check(rule, short(lc)+":start-error-tested", p.Pos(lc.Pos()), false, "the error result of starting the new configuration is never tested")
 			continue
 		}
-		stops := stopSites(c, lc, field)
+		var stops []ssa.CallInstruction
+		for _, f := range reg.Fns {
+			stops = append(stops, stopSites(c, f, field)...)
+		}
 		for i, s := range stops {
-			ok := eng.Cut(lc, s.Block(), succ)
-			c.CheckAt(rule, fmt.Sprintf("%s:stop-old#%d", short(lc), i), s, ok, "the old configuration can be stopped on a path that has not passed the success edge of starting the new one")
+			c.CheckAt(rule, fmt.Sprintf("%s:stop-old#%d", short(lc), i), s, reg.CutDeep(s, gRun), "the old configuration can be stopped on a path that has not passed the success edge of starting the new one")
 			n++
 		}
-		c.Floor(rule, "stop-old sites in "+short(lc), len(stops), 1)
-		// stores to the stop-function field inside the reload function
-		for _, st := range c.P.FieldStores(mainPkg+".OutlineServer", field) {
-			if st.Fn != lc {
+		c.Floor(rule, "stop-old sites in the reload path of "+short(lc), len(stops), 1)
+		for _, st := range p.FieldStores(mainPkg+".OutlineServer", field) {
+			if !reg.In[st.Fn] || st.Fresh {
 				continue
 			}
-			okCut := eng.Cut(lc, st.Ins.Block(), succ)
 			okVal := false
 			if st.Val != nil {
-				okVal, _ = c.P.AllFrom(st.Val, eng.Plain, func(v ssa.Value) bool {
-					call, idx, ok := eng.AsResult(v)
-					if !ok || idx != 0 {
-						return false
-					}
-					for _, rc := range runCalls {
-						if ssa.Instruction(call) == rc.(ssa.Instruction) {
-							return true
-						}
-					}
-					return false
-				})
+				okVal, _ = p.AllFrom(st.Val, deepF, func(v ssa.Value) bool { return inCalls(v, runCalls, 0) })
 			}
-			c.CheckAt(rule, short(lc)+":store-stop-function:on-success-edge", st.Ins, okCut, "the stop-function field is overwritten on a path where starting the new configuration may have failed")
+			c.CheckAt(rule, short(lc)+":store-stop-function:on-success-edge", st.Ins, reg.CutDeep(st.Ins, gRun), "the stop-function field is overwritten on a path where starting the new configuration may have failed")
 			c.CheckAt(rule, short(lc)+":store-stop-function:value", st.Ins, okVal, "the value stored into the stop-function field is not result 0 of the start call")
 			n += 2
 		}
 	}
 	// all other writers of the field: constructors only (fresh object)
-	for _, st := range c.P.FieldStores(mainPkg+".OutlineServer", field) {
-		isCaller := false
+	for _, st := range p.FieldStores(mainPkg+".OutlineServer", field) {
+		inReload := false
 		for _, lc := range a.callers {
-			if st.Fn == lc {
-				isCaller = true
+			if a.region(c, lc).In[st.Fn] {
+				inReload = true
 			}
 		}
-		if isCaller {
+		if inReload {
 			continue
 		}
-		c.CheckAt(rule, short(st.Fn)+":store-stop-function-elsewhere", st.Ins, st.Fresh, "the stop-function field is written outside the reload function on an existing server object")
+		c.CheckAt(rule, short(st.Fn)+":store-stop-function-elsewhere", st.Ins, st.Fresh, "the stop-function field is written outside the reload path on an existing server object")
 	}
 	c.Floor(rule, "obligations", n, 3)
 }
